@@ -337,9 +337,8 @@ def run_thread_check(prop, tier, parts, budget_s, design_ref, assumptions, real_
         print("VIOLATION property=%s replay=%s" % (prop, path))
         print("  class=%s harness=%s variant=%s detail=%s occurrences=%d" % (cls, part.harness, part.variant, replay["expect"]["detail"], len(recs)))
         violations.append({"class": cls, "replay": path, "occurrences": len(recs)})
-        if exit_code == 0:
-            exit_code = 1
-    if det["mismatched"]:
+        exit_code = 1
+    if det["mismatched"] and exit_code != 1:
         print("NONDETERMINISM property=%s mismatches=%d first=%s" % (prop, len(det["mismatched"]), json.dumps(det["mismatched"][0])))
         exit_code = 2
 
